@@ -50,7 +50,13 @@ def option_variants(ids, opt_dev):
         # option pairs that meet in the same code (the flux-sum cap and the loop removal are both built on the
         # objective constraint at the requested fraction) are explored even when the deviation bound is 1
         for extra in ({"fraction": 0.5, "pfba_factor": 1.0}, {"fraction": 0.5, "pfba_factor": 1.5},
-                      {"fraction": 0.5, "loopless": True}):
+                      {"fraction": 0.5, "loopless": True},
+                      # ... and a partial request meets every other option (the problem is built for the whole model, the
+                      # loop runs over the requested reactions only)
+                      {"pfba_factor": 1.0, "reaction_list": "first_id"},
+                      {"pfba_factor": 1.5, "reaction_list": dims["reaction_list"][-1]},
+                      {"loopless": True, "reaction_list": dims["reaction_list"][-1]},
+                      {"fraction": 0.5, "reaction_list": "first_id"}):
             o = dict(base)
             o.update(extra)
             yield o
